@@ -408,6 +408,49 @@ def encodeRequest (fields : List Bytes) : Bytes :=
   42 :: natDigits fields.length ++ [13, 10] ++
     fields.flatMap fun f => 36 :: natDigits f.length ++ [13, 10] ++ f ++ [13, 10]
 
+/-! ## blocked connections (scheduler semantics, C11)
+
+A connection parked in `_blocking` sits in `condition.wait`.  `wakeConn` is one turn of the loop after
+the wait returned `True` (notified, or spuriously): re-run the pass with `first_pass = False`; if it is
+not served, read the clock and either give up (deadline reached) or wait again.  `timeoutConn` is the
+wait returning `False`. -/
+
+def parkedPass (c : Nat) (p : Parked) : M (Except Err (Option Reply)) :=
+  match p.kind, p.keys with
+  | "brpoplpush", [src, dst] => brpoplpushPass p.db src dst false
+  | "blpop", keys => bpopPass p.db true false keys
+  | _, keys => bpopPass p.db false false keys
+
+def wakeConn (c : Nat) : M Unit := do
+  let conn ← getConn c
+  match conn.parked with
+  | none => fault "wake: connection is not parked"
+  | some p =>
+    match ← parkedPass c p with
+    | .error e =>
+      modifyConn c fun x => { x with parked := none }
+      emit c (.err (strBytes e))
+    | .ok (some r) =>
+      modifyConn c fun x => { x with parked := none }
+      emit c r
+    | .ok none =>
+      match p.deadline with
+      | none => modifyConn c fun x => { x with parked := some { p with woken := false } }
+      | some d =>
+        let t ← nextClock
+        if d - t ≤ 0 then
+          modifyConn c fun x => { x with parked := none }
+          emit c .nil
+        else modifyConn c fun x => { x with parked := some { p with woken := false } }
+
+def timeoutConn (c : Nat) : M Unit := do
+  let conn ← getConn c
+  match conn.parked with
+  | none => fault "timeout: connection is not parked"
+  | some _ =>
+    modifyConn c fun x => { x with parked := none }
+    emit c .nil
+
 def openConn (c : Nat) : M Unit :=
   modify fun s => { s with srv := { s.srv with conns := s.srv.conns ++ [{ id := c }] } }
 
